@@ -29,7 +29,7 @@ PROPS = ("X08",)
 
 UTC = datetime.timezone.utc
 EPOCH = datetime.datetime(2020, 1, 1, tzinfo=UTC)
-TR_ACTIONS = ["StartTestRun", "Tick", "Time", "StartTest", "Add", "StopTest", "StopTestRun"]
+TR_ACTIONS = ["StartTestRun", "Tick", "Time", "StartTest", "Add", "AddStray", "StopTest", "StopTestRun"]
 
 TESTS = {"t1": "pkg.mod.T.test_é", "t2": "t2"}
 SEP1 = "=" * 70 + "\n"
@@ -365,8 +365,8 @@ def run(tier, pid="X08"):
         "X08",
         tier,
         "model_checking",
-        "TextResult: behaviours = startTestRun, then up to 4 (exhaustive) / 14 (random) calls of startTest / one of six "
-        "outcomes / stopTest / time(value | None) / system-clock advances, then stopTestRun; clock and time() values chosen "
+        "TextResult: behaviours = startTestRun, then up to 3 (exhaustive) / 14 (random) calls of startTest / one of six "
+        "outcomes / a problem outcome outside startTest-stopTest / stopTest / time(value | None) / system-clock advances, then stopTestRun; clock and time() values chosen "
         "around millisecond boundaries (0.4 ms, exactly 1 ms, 1.1 ms, 1.234 s, 1 day + 1.0007 s, time going backwards). "
         "UniStream: 16 kinds of stream (StringIO, TextIOWrapper utf-8/ascii/latin-1, BytesIO, write-only objects without "
         "/ with None / bogus / ascii / latin-1 / greek / utf-8 / utf-16 encoding, text-stream look-alikes with a buffer) x "
